@@ -244,6 +244,7 @@ func (ex *Exec) frameCheck(fr *Frame, con *Contract, fin *State, env *SpecEnv) {
 // frameObligations proves that `fin` differs from `entry` only at the locations named by mods
 // (evaluated in the entry state) and at objects allocated after id minNew.
 func (ex *Exec) frameObligations(fr *Frame, kind string, entry, fin *State, modClauses []*Clause, env *SpecEnv, minNew int) {
+	atEntry := kind == "frame"
 	for _, m := range modClauses {
 		if t := strings.TrimSpace(m.Text); t == "*" || t == "everything" {
 			return
@@ -267,8 +268,10 @@ func (ex *Exec) frameObligations(fr *Frame, kind string, entry, fin *State, modC
 		}
 		oenv := *env
 		oenv.st = entry
-		oenv.old = entry
-		oenv.inOld = true
+		if atEntry {
+			oenv.old = entry
+			oenv.inOld = true
+		}
 		if strings.HasSuffix(text, "[*]") {
 			base := strings.TrimSuffix(text, "[*]")
 			pc := ex.parseClause(oenv.pkg, oenv.pos, base)
@@ -284,6 +287,25 @@ func (ex *Exec) frameObligations(fr *Frame, kind string, entry, fin *State, modC
 				mods = append(mods, modItem{kind: "map", addr: v.(*Term)})
 			case *types.Slice:
 				mods = append(mods, modItem{kind: "elems", addr: v.(*Agg).F[0].(*Term)})
+			}
+			continue
+		}
+		if strings.HasSuffix(text, ".*") {
+			pc := ex.parseClause(oenv.pkg, oenv.pos, strings.TrimSuffix(text, ".*"))
+			if pc.err != nil {
+				unsupp("modifies %s: %v", text, pc.err)
+			}
+			oenv.info = pc.info
+			ex.spec++
+			v := oenv.eval(pc.expr)
+			ex.spec--
+			switch x := v.(type) {
+			case *Term:
+				mods = append(mods, modItem{kind: "loc", addr: x})
+			case *Agg:
+				if len(x.F) == 2 {
+					mods = append(mods, modItem{kind: "loc", addr: x.F[1].(*Term)})
+				}
 			}
 			continue
 		}
@@ -439,7 +461,7 @@ func (ex *Exec) verifyLemma(cl *Clause, pkgPath string) (rep *FuncReport) {
 	ex.inputs = nil
 	ex.pureSeen = map[string]bool{}
 	st := &State{reach: True(), cells: map[*ssa.Alloc]Val{}, heap: newHeap("")}
-	env := &SpecEnv{ex: ex, pkg: pk, pos: pkgPos(pk, ex.cs.Scope[pk.PkgPath]), st: st, old: st, objs: map[types.Object]Val{}, entry: map[types.Object]Val{}, label: rep.Func}
+	env := &SpecEnv{ex: ex, pkg: pk, pos: pkgPos(pk, ex.cs.LemmaScope[cl]), st: st, old: st, objs: map[types.Object]Val{}, entry: map[types.Object]Val{}, label: rep.Func}
 	g := env.evalBool(cl.Text)
 	fr := &Frame{ex: ex, label: label}
 	ex.oblige(fr, st, "lemma", cl.Label, g, token.NoPos, cl.Text)
